@@ -33,7 +33,7 @@ def main():
             sh('git checkout -q -- . && git clean -fdq -e petl/version.py', cwd=WT)
             shutil.copy(demo, WT + '/_demo.py')
             r0, o0 = sh('%s _demo.py' % PY, cwd=WT, env=env)
-            ra, oa = sh('git apply %s' % patch, cwd=WT)
+            ra, oa = sh('git apply %s || git apply -C1 --recount %s || patch -p1 -F3 < %s' % (patch, patch, patch), cwd=WT)
             if ra != 0:
                 results[name] = 'patch does not apply to current HEAD: ' + oa[-200:]
                 continue
@@ -44,7 +44,7 @@ def main():
             results[name] = 'confirmed' if ok else 'rejected: pristine demo exit %d, suite %s, patched demo exit %d' % (r0, ot.strip()[-60:], r1)
             if ok:
                 os.makedirs(dest, exist_ok=True)
-                shutil.copy(patch, dest + '/patch.diff')
+                sh('git diff > %s/patch.diff' % dest, cwd=WT) if os.makedirs(dest, exist_ok=True) is None else None
                 shutil.copy(demo, dest + '/demo.py')
                 meta = {}
                 try:
